@@ -19,7 +19,7 @@ CLAIMS = {
 CLAIMS.update({
   "C01": dict(
     technique="Lean 4 proof (candidate loop realises the declarative `choose` spec; induction on the candidate list) + model/implementation correspondence + Lean Spec monitor on implementation traces",
-    text="Theorems C01_trigger / tryCands_choose / choose_fire_first: for every machine, event (declared or not), guard valuation and validator plan, the engine fires the first transition in declaration order that is bound to the event with all cond truthy and all unless falsy and ends in its target; otherwise state unchanged and TransitionNotAllowed(event,state) or None; a raising validator aborts with the state unchanged. Proved for run-to-completion mode with guards that do not raise; rtc=False and the async engine are tied by the correspondence (same model, handler-parametrised). The `choose` spec is also evaluated (in Lean) on the implementation's own observations.",
+    text="Theorems C01_trigger / tryCands_choose / choose_fire_first: for every machine, event (declared or not), guard valuation and validator plan, the engine fires the first transition in declaration order that is bound to the event with all cond truthy and all unless falsy and ends in its target; otherwise state unchanged and TransitionNotAllowed(event,state) or None; a raising validator aborts with the state unchanged. Proved for run-to-completion mode with guards that do not raise, for every processed event of every history (C01_drain_step / C01_every_event: whatever is at the head of the queue at any point of any drain, external or nested, is decided by `choose` on the state and guard values of that moment), and for rtc=False / any nested-send handler when callbacks send no events (C01_trigger_any_handler, C01_send_nonrtc); rtc=False with nested sends and the async engine are tied by the correspondence (same model, handler-parametrised). The `choose` spec is also evaluated (in Lean) on the implementation's own observations.",
     design="7 C01"),
   "C04": dict(
     technique="Lean 4 proof (no assumption on callbacks: case analysis of the two halves of an activation; induction on the drain loop) + systematic fault enumeration against the implementation",
